@@ -49,11 +49,13 @@ KNOWN = {
     # multiples of dk: f(x + L) = -f(x), the field is no longer periodic (tags kind="mode_count").
     # Histories stop at the first state with a surplus mode; fresh objects are still checked
     # for periodicity with the n+1 grid.
-    "arange_extra_mode": True,
+    # (fixed in /repo by f30751d: switch off, assertion live)
+    "arange_extra_mode": False,
     # update(period=new, mode_no=<odd>) raises ValueError after the new period and
     # wave number spacing have been stored: generator.period reports the new period
     # while the field keeps the old one (tags kind="rejected_update_half_applied").
-    "rejected_update_half_applied": True,
+    # (fixed in /repo by 40ae5dd: switch off, assertion live)
+    "rejected_update_half_applied": False,
     # Numerical (Hankel transform) spectral densities become negative for rough models
     # (Stable with alpha <~ 0.7: spectrum(2 pi) < 0), sqrt gives NaN amplitudes and the whole
     # Fourier field is NaN.  A matter of spectrum accuracy (C04 / C01), not of periodicity:
@@ -648,6 +650,7 @@ def check_history(case, rec):
                     if op["modes"] is not None:
                         ukw["mode_no"] = op["modes"]
                     if odd:
+                        rec.label("update_odd_refused" + ("+period" if op["period"] is not None else ""))
                         # a refused update changes nothing the user can see; the model passed along is
                         # the SRF's own and reaches the generator with the next call anyway
                         _expect_odd_refused(lambda: gen.update(**ukw), f"op {i}: generator.update({_fmt(ukw)})", otags)
